@@ -521,6 +521,21 @@ pub fn run(opts: &Opts) -> Report {
         rep.count(if is_race { "race_corpus" } else { "schedule_cases" });
         rep.sample(case);
     }
+    // (c) task streams: two or three emitters on one task (the stdout pump, the stderr pump, status
+    // frames) single-stepped between the effects of the real TaskEmitter::emit under random schedules;
+    // the task stream's frames must stand in the log as 0,1,2,… in file order
+    let n_two = if opts.thorough { 200 } else { 20 } * opts.scale;
+    for _ in 0..n_two {
+        let (logged, _late, total, case, key) = crate::c06::two_emitter_run(&mut rng);
+        rep.evaluations += 1;
+        rep.traces_validated += 1;
+        rep.count("task_stream_two_emitter_schedules");
+        rep.nontrivial_case(&key);
+        let want: Vec<u64> = (0..total).collect();
+        if logged != want {
+            rep.oracle_failure("C01|task-stream|file-order-under-concurrent-emitters", &format!("several emitters on one task stream: the log holds the stream's seqs in the order {logged:?}, expected {want:?} (a validated replay fails)"), case);
+        }
+    }
     let _ = ToolSideEffects { tool_id: String::new(), tool_name: String::new(), affected_paths: None, checkpoint_id: None };
     rep
 }
